@@ -34,6 +34,93 @@ def run(repo: Repo, rep, tier: str):
     short_cval(repo, rep, "C04")
     fixups(repo, rep, "C04")
     defaults_vs_spec(repo, rep, "C04")
+    chunk_block_freshness(repo, rep, "C04", "R7")
+    from . import c02
+    c02.cmid_reader_rule(repo, rep, "C04", "R8")          # CMID: 8-byte entries, entry i → i-th controller, every complete entry decoded
+
+
+BLOCK_HANDLERS = ("process_CHNM", "process_CHDT", "process_CHFF", "process_CHFR")
+
+
+def _block_stores(fn: ast.FunctionDef) -> List[Tuple[str, str, ast.AST]]:
+    """(container attribute X, field, node) for stores `self.X.f = …` / `self.X["f"] = …` (also as unpack targets)."""
+    out = []
+    for n in ast.walk(fn):
+        tg = []
+        if isinstance(n, ast.Assign):
+            tg = n.targets
+        elif isinstance(n, (ast.AugAssign, ast.AnnAssign)):
+            tg = [n.target]
+        for t in tg:
+            for tt in (t.elts if isinstance(t, (ast.Tuple, ast.List)) else [t]):
+                if isinstance(tt, ast.Attribute) and isinstance(tt.value, ast.Attribute) and norm(tt.value.value) == "self":
+                    out.append((tt.value.attr, tt.attr, n))
+                elif isinstance(tt, ast.Subscript) and isinstance(tt.value, ast.Attribute) and norm(tt.value.value) == "self" \
+                        and isinstance(tt.slice, ast.Constant) and isinstance(tt.slice.value, str):
+                    out.append((tt.value.attr, tt.slice.value, n))
+    return out
+
+
+def chunk_block_freshness(repo: Repo, rep, P: str, rule: str):
+    """Each CHNM starts a new module-specific block: whatever the CHDT/CHFF/CHFR handlers accumulate is reset completely
+    when the next CHNM arrives, so a block without CHFF/CHFR gets the documented defaults instead of its predecessor's values."""
+    mr = repo.cls("ModuleReader", module="rv.readers.module")
+    rel = mr.file.rel
+    con = f"{rel}:ModuleReader.process_CHNM"
+    fields: Dict[str, Dict[str, ast.AST]] = {}
+    for h in BLOCK_HANDLERS:
+        fn = mr.methods.get(h)
+        if fn is None:
+            raise AnchorMissing(f"ModuleReader.{h}")
+        for x, f, node in _block_stores(fn):
+            fields.setdefault(x, {})[f] = node
+    rep.instances["block_accumulators"] = {x: sorted(fs) for x, fs in fields.items()}
+    if not fields:
+        rep.inconclusive(f"{P}.{rule}", con, "", "no accumulator for CHNM/CHDT/CHFF/CHFR found", f"{rel}:{mr.node.lineno}")
+        return
+    chnm = mr.methods["process_CHNM"]
+    scope = [chnm]
+    for c in ast.walk(chnm):
+        if isinstance(c, ast.Call) and isinstance(c.func, ast.Attribute) and norm(c.func.value) == "self" and c.func.attr in mr.methods:
+            scope.append(mr.methods[c.func.attr])
+    for x, fs in sorted(fields.items()):
+        reset_all = False
+        reset_some = set()
+        for fn in scope:
+            for n in ast.walk(fn):
+                if isinstance(n, ast.Assign) and any(norm(t) == f"self.{x}" for t in n.targets):
+                    v = n.value
+                    if isinstance(v, (ast.Call, ast.Dict, ast.List)) and not (isinstance(v, ast.Call) and norm(v.func) in ("getattr",)):
+                        reset_all = True
+                if isinstance(n, ast.Call) and isinstance(n.func, ast.Attribute) and norm(n.func.value) == f"self.{x}":
+                    if n.func.attr == "clear":
+                        reset_all = True
+                    if n.func.attr == "pop" and n.args and isinstance(n.args[0], ast.Constant):
+                        reset_some.add(n.args[0].value)
+                if isinstance(n, ast.Delete):
+                    for t in n.targets:
+                        if isinstance(t, ast.Subscript) and isinstance(t.slice, ast.Constant):
+                            base = t.value
+                            if norm(base) == f"self.{x}" or (isinstance(base, ast.Name) and any(
+                                    isinstance(a, ast.Assign) and norm(a.targets[0]) == base.id and norm(a.value) == f"self.{x}" for a in ast.walk(fn))):
+                                reset_some.add(t.slice.value)
+                # local alias `fields = self.X` … fields.pop("k") / fields.clear()
+                if isinstance(n, ast.Call) and isinstance(n.func, ast.Attribute) and isinstance(n.func.value, ast.Name) and any(
+                        isinstance(a, ast.Assign) and norm(a.targets[0]) == n.func.value.id and norm(a.value) == f"self.{x}" for a in ast.walk(fn)):
+                    if n.func.attr == "clear":
+                        reset_all = True
+                    if n.func.attr == "pop" and n.args and isinstance(n.args[0], ast.Constant):
+                        reset_some.add(n.args[0].value)
+        stale = sorted(set(fs) - reset_some) if not reset_all else []
+        stale = [f for f in stale if f != "chnm"]          # overwritten by every CHNM itself
+        if reset_all or not stale:
+            rep.ok(f"{P}.{rule}", con, f"self.{x}: fields {sorted(fs)}", "a new block starts from a fresh record")
+        else:
+            node = fs[stale[0]]
+            rep.violation(f"{P}.{rule}", con, f"self.{x}: {sorted(fs)}; reset at CHNM: {sorted(reset_some) or 'nothing'}",
+                          f"{stale} collected for one CHNM block are still set when the next block starts: a block without its own "
+                          f"{'/'.join(s_.upper() for s_ in stale)} inherits the previous block's value instead of the documented default",
+                          f"{rel}:{node.lineno}")
 
 
 # ------------------------------------------------------------------------------------ R1
@@ -92,6 +179,37 @@ def unknown_ids(repo: Repo, rep, P: str):
                       f"{rel}:{bad.lineno}")
     else:
         rep.ok(f"{P}.R1", construct, f"no-handler branch ({n_stmts} statement(s), log only) → next chunk", "unknown ids are skipped without side effects")
+    # dispatch coverage: every chunk reaches the handler test, and every chunk with a handler reaches the handler call
+    body_entry = [m for m, lab in g.succ[loop.id] if lab in ("body", "true", "iter", "next")] or \
+                 [m for m, lab in g.succ[loop.id] if lab not in ("exc", "exit", "false", "done", "orelse")]
+    body_nodes = {id(x) for st in loop.ast.body for x in ast.walk(st)}
+    body_entry = [m for m in body_entry if g.nodes[m].ast is not None and id(g.nodes[m].ast) in body_nodes] or body_entry
+    hv = None
+    for c in ast.walk(t.ast):
+        if isinstance(c, ast.Call) and norm(c.func) == "callable" and c.args and isinstance(c.args[0], ast.Name):
+            hv = c.args[0].id
+    calls = {n.id for n in g.nodes if n.kind == "stmt" and n.ast is not None and hv is not None
+             and any(isinstance(c, ast.Call) and isinstance(c.func, ast.Name) and c.func.id == hv for c in ast.walk(n.ast))}
+    if body_entry:
+        skip = set()
+        for be in body_entry:
+            if be != t.id:
+                skip |= g.reachable(be, avoid={t.id}, labels_excluded={"exc", "reraise", "nomatch"})
+        if loop.id in skip or g.exit in skip:
+            culprit = next((g.nodes[i] for i in sorted(skip) if g.nodes[i].kind == "stmt" and isinstance(g.nodes[i].ast, (ast.Continue, ast.Break, ast.Return))), None)
+            rep.violation(f"{P}.R1", construct, culprit.text() if culprit else "path around the handler test",
+                          "a chunk can be passed over before the reader has looked for its handler: whether a chunk is decoded then depends "
+                          "on something other than its id having a handler in this reader (e.g. on what earlier loads saw)",
+                          f"{rel}:{culprit.lineno if culprit else loop.lineno}")
+        else:
+            rep.ok(f"{P}.R1", construct, norm(t.ast), "every chunk of the stream reaches the handler test")
+    hit = [m for m, lab in g.succ[t.id] if lab == ("false" if neg else "true")]
+    if hit and calls:
+        around = g.reachable(hit[0], avoid=calls, labels_excluded={"exc", "reraise", "nomatch"}) if hit[0] not in calls else set()
+        if loop.id in around:
+            rep.violation(f"{P}.R1", construct, f"{hv}(data)", "a chunk whose id has a handler can skip the handler call", f"{rel}:{t.lineno}")
+        else:
+            rep.ok(f"{P}.R1", construct, f"{hv}(data)", "every chunk with a handler is handed to it")
     # handler name derivation
     src = norm(fn)
     verdict = _handler_lookup(fn)
